@@ -23,6 +23,7 @@ func init() { register("C07", checkC07) }
 // Reviewed escapes the order lattice cannot decide, keyed by range › what escapes, one line of
 // reason each. Anything else escaping from the same loop is still reported.
 var c07Reviewed = map[string]string{
+	"paramMappings › range params › loop-carried seenIDs[strings.ToLower(swag.ToGoName(p.Name))]":    "name deconfliction: when a Go name is taken, the parameter that holds it and the one that wants it are BOTH renamed after their own location (checked by C07.R1.symmetric-rename), so the outcome is the same whichever came first",
 	"scanCtx.FindModel › range s.app.Models › first-match":                                           "first match on (package path, type name), which identifies at most one declaration in the index: the result does not depend on the visiting order",
 	"GenerateDefinition › range specDoc.Spec().Definitions › modelNames":                             "collects the names of all definitions; the following loop generates one file per name (paths injective in the name), each generation independent of the others",
 	"schemaGenContext.buildProperties › range sg.Schema.Properties › sg.MergeResult→sg.Dependencies": "GenSchema.Dependencies → GenDefinition.DependsOn is read by no template (it shows only in the --dump-data debug dump)",
@@ -147,6 +148,7 @@ func checkC07(c *Ctx) {
 	checkComparators(c, pkgs)
 	checkClosureComparators(c, pkgs)
 	checkInvertedTables(c, pkgs)
+	checkSymmetricRename(c, pkgs)
 	// the spec path rendered into generated code (go:generate comment) is the user's, never the
 	// path of a temporary copy
 	for _, pk := range pkgs {
@@ -716,6 +718,7 @@ func checkClosureComparators(c *Ctx, pkgs []*packages.Package) {
 				}
 				c.Check(len(missing) == 0, rule, key, c.posOf(pk, call.Pos()), "compares "+strings.Join(want.reads, ", ")+" — "+want.why,
 					fmt.Sprintf("the comparator passed to sort.%s in %s does not read %v of the elements: two distinct elements tie and keep the order of the maps they were collected from (%s)", fn.Name(), load.FuncName(fd), missing, want.why))
+				checkTieBreaks(c, rule, key, pk, lit.Body, strings.TrimSuffix(want.reads[len(want.reads)-1], "()"))
 				return true
 			})
 		}
@@ -756,6 +759,7 @@ func checkComparators(c *Ctx, pkgs []*packages.Package) {
 			}
 			c.Check(len(missing) == 0, rule, key, c.posOf(pk, fd.Pos()), "compares "+strings.Join(want.fields, ", ")+" — "+want.why,
 				fmt.Sprintf("%s.Less does not compare %v: two distinct elements tie and keep the order of the map they were collected from, so generated output changes from run to run (%s)", recv, missing, want.why))
+			checkTieBreaks(c, rule, key, pk, fd.Body, want.fields[len(want.fields)-1])
 		}
 	}
 }
@@ -837,4 +841,118 @@ func checkInvertedTables(c *Ctx, pkgs []*packages.Package) {
 			})
 		}
 	}
+}
+
+// checkSymmetricRename: the reviewed loop-carried dependence of paramMappings is harmless only
+// because a conflict renames both parties, each under its own name. The store that rewrites the
+// earlier party must be keyed by fields of the remembered entry alone — keyed by the current
+// parameter it rewrites the wrong name whenever the two are spelled differently, and the plain
+// name stays with whichever parameter the map iteration visited first.
+func checkSymmetricRename(c *Ctx, pkgs []*packages.Package) {
+	rule := "C07.R1.symmetric-rename"
+	c.Rule(rule, "paramMappings: on a name conflict the earlier parameter is rewritten under keys taken from its own remembered entry", 1)
+	for _, pk := range pkgs {
+		if pk.Name != "generator" {
+			continue
+		}
+		fd := load.FuncDecl(pk, "paramMappings")
+		if fd == nil {
+			c.Anchor(rule, "generator.paramMappings", "not found")
+			return
+		}
+		info := pk.TypesInfo
+		// the variable bound to the remembered entry: x := val.(struct{…})
+		var prev types.Object
+		ast.Inspect(fd.Body, func(n ast.Node) bool {
+			as, ok := n.(*ast.AssignStmt)
+			if !ok || len(as.Lhs) != 1 || len(as.Rhs) != 1 {
+				return true
+			}
+			if ta, ok := ast.Unparen(as.Rhs[0]).(*ast.TypeAssertExpr); ok && ta.Type != nil {
+				if _, isStruct := info.TypeOf(ta.Type).Underlying().(*types.Struct); isStruct {
+					if id, ok := as.Lhs[0].(*ast.Ident); ok {
+						prev = info.Defs[id]
+					}
+				}
+			}
+			return true
+		})
+		if prev == nil {
+			c.Anchor(rule, "generator.paramMappings › remembered entry", "no `x := val.(struct{…})` found")
+			return
+		}
+		rootOf := func(e ast.Expr) types.Object {
+			for {
+				switch x := ast.Unparen(e).(type) {
+				case *ast.SelectorExpr:
+					e = x.X
+				case *ast.Ident:
+					return info.Uses[x]
+				default:
+					return nil
+				}
+			}
+		}
+		n := 0
+		ast.Inspect(fd.Body, func(nd ast.Node) bool {
+			as, ok := nd.(*ast.AssignStmt)
+			if !ok || len(as.Lhs) != 1 {
+				return true
+			}
+			outer, ok := ast.Unparen(as.Lhs[0]).(*ast.IndexExpr)
+			if !ok {
+				return true
+			}
+			inner, ok := ast.Unparen(outer.X).(*ast.IndexExpr)
+			if !ok || rootOf(inner.Index) != prev {
+				return true
+			}
+			n++
+			c.Check(rootOf(outer.Index) == prev, rule, "generator.paramMappings › rewrite of the earlier parameter", c.posOf(pk, as.Pos()), "keyed by "+goan.ExprString(inner.Index)+" and "+goan.ExprString(outer.Index),
+				fmt.Sprintf("the earlier parameter is rewritten under %s, which is not taken from its remembered entry: when the two conflicting parameters are spelled differently (foo-bar, foo_bar) the earlier one keeps the plain Go name, and which one is earlier follows map iteration order", goan.ExprString(outer.Index)))
+			return true
+		})
+		if n == 0 {
+			c.Bad(rule, "generator.paramMappings › rewrite of the earlier parameter", c.posOf(pk, fd.Pos()), "no store keyed by the remembered entry: on a conflict only the later parameter is renamed, so names depend on the visiting order")
+		}
+	}
+}
+
+// checkTieBreaks: inside a comparator, a `return x < y` on anything but the last key of the
+// reviewed list must be control-dependent on `x != y`: otherwise two elements that agree on x
+// compare equal in both directions whatever the later keys say, and keep the order of the map
+// they were collected from.
+func checkTieBreaks(c *Ctx, rule, key string, pk *packages.Package, body *ast.BlockStmt, finalKey string) {
+	info := pk.TypesInfo
+	n := 0
+	goan.WalkGuards(info, body, func(leaf ast.Node, guards []goan.Lit, _ []ast.Stmt) {
+		ret, ok := leaf.(*ast.ReturnStmt)
+		if !ok || len(ret.Results) != 1 {
+			return
+		}
+		be, ok := ast.Unparen(ret.Results[0]).(*ast.BinaryExpr)
+		if !ok || (be.Op != token.LSS && be.Op != token.GTR && be.Op != token.LEQ && be.Op != token.GEQ) {
+			return
+		}
+		n++
+		xs, ys := goan.ExprString(be.X), goan.ExprString(be.Y)
+		if finalKey == "" || strings.Contains(xs, finalKey) {
+			return // the last key of the list: nothing is left to break a tie with
+		}
+		guarded := false
+		for _, g := range guards {
+			if g.Tag != nil || g.NonEmpty {
+				continue
+			}
+			if ge, ok := ast.Unparen(g.E).(*ast.BinaryExpr); ok {
+				a, b := goan.ExprString(ge.X), goan.ExprString(ge.Y)
+				same := (a == xs && b == ys) || (a == ys && b == xs)
+				if same && ((ge.Op == token.NEQ && g.Pos) || (ge.Op == token.EQL && !g.Pos)) {
+					guarded = true
+				}
+			}
+		}
+		c.Check(guarded, rule, fmt.Sprintf("%s › return %s %s %s only when they differ", key, xs, be.Op, ys), c.posOf(pk, ret.Pos()), "under "+xs+" != "+ys,
+			fmt.Sprintf("the comparator answers `%s %s %s` without having tested that the two differ: elements that agree on it compare equal in both directions, the later keys are never consulted, and ties keep the order of the map the elements were collected from", xs, be.Op, ys))
+	})
 }
